@@ -1050,14 +1050,33 @@ class RZILTransformer(Transformer):
             # An expression statement whose value is not used (e.g. "i++;" or "fcn(x);").
             # No effect depends on the hybrid. So it must be executed here, at its
             # position in the source. Otherwise, it ends up in front of all other statements.
+            # Only the hybrids this expression depends on. Others (e.g. the step
+            # of an enclosing for loop) are still waiting for their own statement.
             pending = [
                 self.il_ops_holder.hybrid_effect_dict.pop(hid)
-                for hid in [k for k in self.il_ops_holder.hybrid_effect_dict.keys()]
+                for hid in self.get_pending_hybrid_ids(item)
             ]
+            if len(pending) == 0:
+                return item
             if len(pending) == 1:
                 return pending[0]
             return self.add_op(Sequence(f"seq", pending))
         return item
+
+    def get_pending_hybrid_ids(self, pure: Pure) -> list[str]:
+        """Returns the ids of all pending hybrids the given Pure depends on (in the order they were added)."""
+        deps = set()
+
+        def collect(p):
+            if isinstance(p, str) or p is None:
+                return
+            if p.get_name() in self.il_ops_holder.hybrid_effect_dict:
+                deps.add(p.get_name())
+            for o in getattr(p, "ops", []):
+                collect(o)
+
+        collect(pure)
+        return [k for k in self.il_ops_holder.hybrid_effect_dict.keys() if k in deps]
 
     def chk_hybrid_dep(
         self, effect: Effect, order: HybridSeqOrder = HybridSeqOrder.HYB_THEN_SEQ
